@@ -108,6 +108,11 @@ let run_case op t =
       let _ = next_int t in let _ = next_int t in let _ = next_int t in
       let x = read_f ty t in let y = read_f ty t in let z = read_f ty t in
       (okf ty false (ct_fma f x y z), okf ty false (rt_fma f x y z))
+  | "fmod" | "remainder" ->
+      let ty = next_str t in let f = fmt_of ty in let _ = next_int t in let _ = next_int t in
+      let x = read_f ty t in let y = read_f ty t in
+      let (ct, rt) = if op = "fmod" then (ct_fmod, rt_fmod) else (ct_remainder, rt_remainder) in
+      (res_s (okf ty false) (ct f x y), okf ty false (rt x y))
   (* single-path samples: one description, printed in both legs *)
   | "civil" ->
       let _ = next_int t in let z = next_z t in
@@ -128,6 +133,20 @@ let run_case op t =
       let _ = next_int t in let _ = next_int t in
       let a = bytes_until_nul (next_zlist t) in let b = bytes_until_nul (next_zlist t) in
       let s = text_s (istr a b) in (s, s)
+  | "ctype" ->
+      let c = next_z t in
+      let s = join ("ok" :: List.map str_of_z (ctype_all c)) in (s, s)
+  | "svops" ->
+      let _ = next_int t in let _ = next_int t in
+      let a = bytes_until_nul (next_zlist t) in let b = bytes_until_nul (next_zlist t) in
+      let s = join ("ok" :: List.map str_of_z (sv_ops a b)) in (s, s)
+  | "civil_back" ->
+      let _ = next_int t in let z = next_z t in
+      let s = (match civil_back z with Some d -> okz d | None -> "ub") in (s, s)
+  | "algo2" ->
+      let _ = next_int t in let a = bytes_until_nul (next_zlist t) in
+      let ((((r, fi), mx), so), ro) = algo2 a in
+      let s = join [ "ok"; zlist_s r; str_of_z fi; str_of_z mx; str_of_z so; zlist_s ro ] in (s, s)
   | _ -> raise Not_found
 
 let () = main run_case
